@@ -16,7 +16,7 @@ theorem scalarErrs_dead (s : SchemaD) (t : TI) (v : Value) (h : t.inputType = no
   simp [scalarErrs, checkScalar, h]
 
 theorem inputType_list (s : SchemaD) (vs : List Value) (t : TI) :
-    (tiEnter s (.value (.list vs)) t).inputType = TI.inOnly s (t.inputType.map fun x => Ty.named x.base) := by
+    (tiEnter s (.value (.list vs)) t).inputType = TI.inOnly s (t.inputType.map TI.itemOf) := by
   simp [tiEnter, TI.enterListValue, TI.inputType, peek_cons]
 
 theorem peek_cons2 {α} (a : Option α) (l : List (Option α)) : TI.peek (a :: l) 2 = TI.peek l 1 := by
